@@ -34,7 +34,7 @@ CLAIMED = {
     "C14": (
         "complete enumeration of the configuration product vs a pure oracle function",
         "The finite product of connect arguments x letter case x auto-create flags x storage mode x prior state x connection order is "
-        "enumerated completely (quick: 2560 configurations, thorough: 30720) and each outcome compared with a pure function of the "
+        "enumerated completely (quick: 2880 configurations, thorough: 32000; both the FakeSnow() and the fakesnow.patch() route) and each outcome compared with a pure function of the "
         "configuration; exhaustive over that product, exploration beyond it.",
         "Prior state is built through an option-less session with fully qualified DDL; 'database exists' means attached in the live instance.",
         "DESIGN.md §4 C14",
@@ -68,7 +68,7 @@ CLAIMED = {
     ),
     "C13": (
         "Hypothesis-generated transactional histories over three connections vs committed-store + pending-set model",
-        "Statement-level interleavings of BEGIN/DML/failing statements/COMMIT/ROLLBACK (SQL and API) on three connections with two "
+        "Statement-level interleavings of BEGIN/DML (execute and executemany)/failing statements/COMMIT/ROLLBACK (SQL and API)/close with an open transaction on three connections (context from connect arguments or from USE) with two "
         "cursors each are generated (state-aware drawing keeps transactions overlapping) and every read is compared with a model of "
         "committed states and pending sets; exploration of statement-level interleavings (thread-level ones are C19's).",
         "Non-conflicting writes only; a reader inside a transaction may see any state committed since its BEGIN.",
